@@ -172,12 +172,14 @@ def run(sc):
                         "ml_commit_via_heartbeat", "ml_pending_assigned_on_takeover", "ml_future_resolved",
                         "ml_leader_deposed_by_own_heartbeat", "ml_queued_at_non_leader", "ml_nack",
                         "ml_leader_uses_foreign_ballot", "ml_leader_kept_leading_after_own_tick",
-                        "ml_command_after_first_tick_applied_everywhere"], 0)
+                        "ml_command_after_first_tick_applied_everywhere", "ml_promise_reported_entries"], 0)
     ticked = set()               # leaders that survived at least one own heartbeat tick
     late_cmds = []               # commands submitted to such a leader
     leaders_ever = []
     ack_msgs = {}                # (leader, slot) -> Accepted responses delivered to it
     promises_ml = {}             # (node, ballot number) -> promises from peers for its *own* ballot
+    promised_log = {}            # (node, ballot number) -> {slot: (term, command)} highest-term entries reported by the
+                                 # promises that formed its phase-1 quorum (the first q1-1 peer promises)
     last_ballot = {}             # node -> (number, node_id) last seen
     slots_committed = [0]
 
@@ -286,8 +288,16 @@ def run(sc):
                        f"Accept(ballot={b}, slot={slot}) carried {old_cmd!r} (from {old_sender}) and now {cmd!r} (from {sender})")
         else:
             accept_msg[k] = (cmd, sender)
+        if sender == b[1]:
+            pe = promised_log.get((sender, b[0]), {}).get(slot)
+            own = nodes[idx[sender]].log.get(slot)
+            if pe is not None and pe[1] != cmd and pe[0] < b[0] and own is not None and (own.term == b[0] or own.term < pe[0]):
+                J.fine("accept-respects-earlier-ballots", "ignores-promised-entry",
+                       f"{sender} became leader for ballot {b} on promises that report slot {slot} = {pe[1]!r} accepted at ballot "
+                       f"number {pe[0]}, yet it sends Accept(ballot={b}, slot={slot}, command={cmd!r}) "
+                       f"(its own entry there has term {own.term})")
         if slot in chosen and chosen[slot][0] != cmd and b > chosen[slot][1]:
-            J.fine("accept-respects-chosen", "higher-ballot-overwrites-chosen-slot",
+            J.fine("accept-respects-earlier-ballots", "overwrites-chosen-slot",
                    f"slot {slot}: {chosen[slot][0]!r} is chosen (accepted by {q2} acceptors at ballot {chosen[slot][1]}), "
                    f"yet {sender} sends Accept(ballot={b}, slot={slot}, command={cmd!r})")
         # the sender holds the entry in its own log and counts itself
@@ -307,7 +317,15 @@ def run(sc):
                    f"{x.name}'s ballot went from {last_ballot[x.name]} to {cbn} during {et}")
         last_ballot[x.name] = cbn
         if et == P + "Promise" and md.get("ballot_node") == x.name:
-            promises_ml[(x.name, md.get("ballot_number"))] = promises_ml.get((x.name, md.get("ballot_number")), 0) + 1
+            pk = (x.name, md.get("ballot_number"))
+            promises_ml[pk] = promises_ml.get(pk, 0) + 1
+            if promises_ml[pk] <= sc["q1"] - 1:
+                tab = promised_log.setdefault(pk, {})
+                for e in md.get("log_entries", []) or []:
+                    pr["ml_promise_reported_entries"] = 1
+                    cur_e = tab.get(e["index"])
+                    if cur_e is None or e["term"] > cur_e[0]:
+                        tab[e["index"]] = (e["term"], e["command"])
         if et == P + "Accepted":
             ack_msgs[(x.name, md.get("slot"))] = ack_msgs.get((x.name, md.get("slot")), 0) + 1
         # --- acceptor answered an Accept
